@@ -235,6 +235,9 @@ def _alg_reduce(p):
     return p
 
 
+INPLACE_PROMOTIONS = [0]
+
+
 class Sym:
     __slots__ = ("n", "d", "_sh")
 
@@ -297,6 +300,26 @@ class Sym:
         if f is None:
             return None
         return Sym(Poly.const(f))
+
+    def __array_ufunc__(self, ufunc, method, *inputs, out=None, **kwargs):
+        """numpy protocol hook, used for one case only: `A op= s` with a FLOAT array A and a symbolic scalar s (e.g. `M_e *= thickness`).
+        numpy would have to store symbolic values in a float buffer; the statement is executed as the rebinding `A = A op s` on an
+        object-dtype copy instead (a read-only buffer raises as numpy does).  Everything else goes the ordinary way (Sym as 0-d object)."""
+        import numpy as _np
+
+        ins = [_np.array(i, dtype=object) if isinstance(i, Sym) else i for i in inputs]
+        if method == "__call__" and out is not None and len(out) == 1 and isinstance(out[0], _np.ndarray) and out[0].dtype != object and out[0] is inputs[0]:
+            if not out[0].flags.writeable:
+                raise ValueError("output array is read-only")
+            INPLACE_PROMOTIONS[0] += 1
+            ins[0] = _np.asarray(ins[0]).astype(object)
+            return ufunc(*ins, **kwargs)
+        if out is not None:
+            kwargs["out"] = out
+        r = getattr(ufunc, method)(*ins, **kwargs)
+        if isinstance(r, _np.ndarray) and r.ndim == 0 and r.dtype == object:
+            return r.item()
+        return r
 
     def __add__(self, o):
         o = self._coerce(o)
